@@ -188,7 +188,7 @@ class C20(Spec):
             cases.append({'kind': 'das', 'cls': 'das-array', 'ref0': sp.get('ref0'), 'ref': sp.get('ref'),
                           'adder': sp.get('adder'), 'scaler': sp.get('scaler')})
         # _scale_bound
-        for _ in range(1500 if tier == 'quick' else 15000):
+        for _ in range(1200 if tier == 'quick' else 15000):
             size = rng.randint(1, 4)
             is_lower = rng.random() < 0.5
             kind = rng.random()
@@ -211,7 +211,7 @@ class C20(Spec):
             cases.append({'kind': 'bound', 'cls': 'scale_bound', 'val': val, 'adder': adder, 'scaler': scaler,
                           'size': size, 'is_lower': is_lower})
         # real problems, exact
-        for _ in range(260 if tier == 'quick' else 2600):
+        for _ in range(200 if tier == 'quick' else 2600):
             c = self.problem(rng)
             c['kind'], c['cls'] = 'prob', 'problem-exact'
             cases.append(c)
@@ -294,17 +294,17 @@ class C20(Spec):
         return core.to_val(r)
 
     def shrink(self, c):
+        """drop one declaration at a time (ref and ref0 only together: ref - ref0 must stay +-2^k)"""
         if c['kind'] not in ('prob', 'probg', 'mult'):
             return
         for who in ('dv', 'con', 'obj'):
-            for key in ('ref0', 'ref', 'adder', 'scaler', 'lower', 'upper', 'units', 'idx'):
-                if c[who].get(key) is not None:
-                    if key == 'idx':
-                        continue
+            for keys in (('units',), ('ref0', 'ref'), ('adder',), ('scaler',), ('lower',), ('upper',)):
+                if any(c[who].get(k) is not None for k in keys):
                     d = dict(c)
-                    d[who] = {k: v for k, v in c[who].items() if k != key}
-                    if key == 'units':
-                        d[who]['units'] = None
+                    d[who] = {k: v for k, v in c[who].items() if k not in keys}
+                    d[who].setdefault('units', None)
+                    if who == 'con' and not any(d[who].get(k) is not None for k in ('lower', 'upper', 'equals')):
+                        continue
                     yield d
 
 
